@@ -253,9 +253,11 @@ class load(DataStreamProcessor):
                 break
 
     def stringer(self, iterator):
+        # the extracted missing values are an object field of their own, not a cell of the source
+        target = self.extract_missing_values['target'] if self.extract_missing_values else None
         for r in iterator:
             yield dict(
-                (k, str(v)) if not isinstance(v, str) else (k, v)
+                (k, str(v)) if not isinstance(v, str) and k != target else (k, v)
                 for k, v in r.items()
             )
 
